@@ -7,6 +7,9 @@
 (*             textually identical declarations in anchoring and              *)
 (*             non-anchoring position evaluated at the same node              *)
 (*   "order"   an array with 11 constant children (fqdn string order)         *)
+(*   "dyn"     root{ f1: dynfield[C], f2: X } and root{ f1: array[dynfield[C]], *)
+(*             f2: X }: computed xpaths whose computation succeeds, is empty   *)
+(*             or fails, next to a declaration with the same text             *)
 EXTENDS Eval, Json
 
 CONSTANTS M, Family, Part, Parts, KeyHasAnchor, SortByFqdn, EmitCases, EmitMod, DocN
@@ -40,8 +43,18 @@ TreeOK(m, p, v) ==
                      /\ (v[p[i]].kind = "concat" => v[i].ty = "none")      \* string-typed arguments (ill-typed calls belong to C03)
                      /\ ~(v[i].kind = "array" /\ v[p[i]].kind = "array")                      \* the schema grammar forbids it
 
+DynV == {V("dynfield", 0, ty, FALSE, keep, "") : ty \in {"none", "int"}, keep \in BOOLEAN}
+DynChildV == {V("field", xp, "none", FALSE, FALSE, "") : xp \in 1..4} \cup {V("const", 0, "none", FALSE, FALSE, l) : l \in {"a", "b", ""}}
+\* only computed xpaths that denote "a" / "b" (or nothing) are generated: other strings are engine territory
+DynOK(d, t) == \A i \in 1..t.m : t.kind[i] = "dynfield" =>
+                 LET v == RefEval(d, t, TKids(t, i)[1], 1) IN v \in {NilV, FailV, <<"s", "a">>, <<"s", "b">>}
+
 Trees ==
-  CASE Family = "all" ->
+  CASE Family = "dyn" ->
+         { Mk(4, <<0, 1, 2, 1>>, <<V("object", 0, "none", FALSE, FALSE, ""), dv, c, x>>) : dv \in DynV, c \in DynChildV, x \in FieldV \cup DynChildV }
+         \cup { Mk(5, <<0, 1, 2, 3, 1>>, <<V("object", 0, "none", FALSE, FALSE, ""), V("array", 0, "none", FALSE, FALSE, ""), dv, c, x>>) :
+                   dv \in DynV, c \in DynChildV, x \in DynChildV }
+    [] Family = "all" ->
          { Mk(M, p, v) : p \in MyShapes(M), v \in [1..M -> AllV] }
     [] Family = "collide" ->
          { Mk(5, <<0, 1, 2, 1, 4>>, <<V("object", 0, "none", FALSE, FALSE, ""), V("array", 0, "none", FALSE, FALSE, ""), x, o, y>>) :
@@ -54,7 +67,7 @@ Trees ==
              S \in {{3, 4}, {4, 12, 13}, {3, 11}, {5, 6, 7, 8, 9, 10, 11}} }
 
 \* records: elements a/b, texts "1" / " y ", cursor at the root element (node 1)
-Labels == {<<"E", "a">>, <<"E", "b">>, <<"T", "1">>, <<"T", " y ">>}
+Labels == {<<"E", "a">>, <<"E", "b">>, <<"T", "1">>, <<"T", " y ">>, <<"T", "a">>}
 DShapes(n) == { p \in [1..n -> 0..(n - 1)] : p[1] = 0 /\ \A i \in 2..n : p[i] \in (AncSelfQ(p, i - 1) \ {0}) }
 Docs(n) == { d \in [n : {n}, par : DShapes(n), lab : [1..n -> Labels]] :
                /\ d.lab[1][1] = "E"
@@ -66,6 +79,7 @@ Doc(d) == [n |-> d.n, par |-> d.par, kind |-> [i \in 1..d.n |-> d.lab[i][1]], nm
 
 Init == /\ T \in {t \in Trees : Family # "all" \/ TreeOK(t.m, t.par, [i \in 1..t.m |-> V(t.kind[i], t.xp[i], t.ty[i], t.notrim[i], t.keep[i], t.lit[i])])}
         /\ D \in {Doc(d) : d \in UNION {Docs(n) : n \in 1..DocN}}
+        /\ (Family = "dyn" => DynOK(D, T))
 Next == UNCHANGED vars
 Spec == Init /\ [][Next]_vars
 
